@@ -22,6 +22,7 @@ import (
 )
 
 const shimPath = "berty.tech/go-ipfs-log/zvsync"
+const lruShimPath = "berty.tech/go-ipfs-log/zvlru"
 
 func main() {
 	if len(os.Args) != 3 {
@@ -40,7 +41,7 @@ func main() {
 		}
 		rel, _ := filepath.Rel(repo, p)
 		if info.IsDir() {
-			if rel == "test" || rel == "example" || rel == ".git" || strings.HasPrefix(filepath.Base(p), ".") && rel != "." || rel == "zvsync" {
+			if rel == "test" || rel == "example" || rel == ".git" || strings.HasPrefix(filepath.Base(p), ".") && rel != "." || rel == "zvsync" || rel == "zvlru" {
 				return filepath.SkipDir
 			}
 			return nil
@@ -84,6 +85,7 @@ func main() {
 			replace[filepath.Join(repo, "zvsync", e.Name())] = filepath.Join(shimDir, e.Name())
 		}
 	}
+	replace[filepath.Join(repo, "zvlru", "lru.go")] = filepath.Join(self, "engine", "zvlru", "lru.go")
 	b, _ := json.MarshalIndent(map[string]interface{}{"Replace": replace}, "", " ")
 	if err := os.WriteFile(filepath.Join(out, "overlay.json"), b, 0o644); err != nil {
 		panic(err)
@@ -120,6 +122,14 @@ func rewrite(name string, src []byte) ([]byte, bool, error) {
 			}
 			semName = local
 			im.Path.Value = strconv.Quote(shimPath)
+			im.Name = ast.NewIdent(local)
+			changed = true
+		case "github.com/hashicorp/golang-lru":
+			// the LRU cache shim: the real cache with scheduling points (engine/zvlru)
+			if local == "" {
+				local = "lru"
+			}
+			im.Path.Value = strconv.Quote(lruShimPath)
 			im.Name = ast.NewIdent(local)
 			changed = true
 		case "context":
